@@ -122,9 +122,11 @@ def ensure_gen(log=None):
 
 
 def gc_gen(keep):
+    """keep every extraction younger than three hours (another check may be using it) and at most twelve"""
     gens = sorted(glob.glob(os.path.join(BUILD, 'gen-*')), key=os.path.getmtime, reverse=True)
-    for g in gens[3:]:
-        if g != keep:
+    now = time.time()
+    for i, g in enumerate(gens):
+        if g != keep and (i >= 12 or now - os.path.getmtime(g) > 3 * 3600):
             shutil.rmtree(g, ignore_errors=True)
 
 
@@ -445,8 +447,8 @@ def run_unit(unit, want_trace=False):
 def run_units(units, progress=None):
     out = []
     with concurrent.futures.ThreadPoolExecutor(max_workers=NPROC) as ex:
-        import rel
-        futs = {ex.submit(rel.run_rel if isinstance(u, rel.RelUnit) else run_unit, u): u for u in units}
+        import rel, uroute
+        futs = {ex.submit(rel.run_rel if isinstance(u, rel.RelUnit) else uroute.run_u if isinstance(u, uroute.UUnit) else run_unit, u): u for u in units}
         for f in concurrent.futures.as_completed(futs):
             r = f.result()
             out.append(r)
